@@ -26,6 +26,19 @@ def _opt_modules(names):
     return [m for m in names if os.path.exists(os.path.join(C.LEAN, m.replace(".", "/") + ".lean"))]
 
 
+def _diverse(bad, size_key):
+    """smallest first, but one representative of every kind of failure before the second of any kind"""
+    groups = {}
+    for b in sorted(bad, key=size_key):
+        groups.setdefault(b["what"].split(":")[0][:60], []).append(b)
+    out = []
+    while any(groups.values()):
+        for k in sorted(groups, key=lambda k: size_key(groups[k][0]) if groups[k] else ()):
+            if groups[k]:
+                out.append(groups[k].pop(0))
+    return out
+
+
 def front_fields(line):
     return C.fields(line or "")
 
@@ -100,6 +113,10 @@ def run_c08(ctx, spec):
         cnt["parser_reached"] += 1
         m = ml.split("\t")
         outcome, cmp_, gs = m[0], (m[1] if len(m) > 1 else ""), (m[2] if len(m) > 2 else "")
+        if outcome.split(" ")[0] not in ("OK", "ERR", "PANIC", "FUEL"):
+            bad.append(dict(src=src, what="the Lean driver did not answer this case: " + ml[:80], impl=p[:80], model=ml[:80],
+                            kind="machinery"))
+            continue
         cnt["model_compared"] += 1
         distinct.add(src)
         if gs == "G-SAME":
@@ -138,7 +155,7 @@ def run_c08(ctx, spec):
              "whose token list reached the parser and was also parsed by the Lean model and by Grammar.parse",
         samples=samples, counters=cnt, generator=stats, lexer_half=lex_info,
         functions_with_totality_theorem=FUNCS_PROVED, functions_exercised_only=FUNCS_EXERCISED)
-    bad.sort(key=lambda b: (len(b["src"]), b["src"]))
+    bad = _diverse(bad, lambda b: (len(b["src"]), b["src"]))
     seen = set()
     for b in bad:
         k = _key(b["src"])
